@@ -58,6 +58,88 @@ def main(argv):
             log = {}
             print(gen.normalize_item(L.text, log))
             print('// rewrites:', log, ' lines', L.line_lo, L.line_hi, ' wrap:', L.wrap, file=sys.stderr)
+    elif argv[0] == 'skel':
+        # skeleton contract entries for every impl / fn of a source file (or those matching a substring)
+        from .items import scan_items
+        from .lex import norm
+        repo = gen.Repo()
+        sf = repo.file(argv[1])
+        pat = argv[2] if len(argv) > 2 else ''
+        for it in sf.items:
+            if not it.active() or it.is_test():
+                continue
+            keys = []
+            if it.kind == 'fn':
+                keys.append('fn ' + it.name)
+            elif it.kind == 'impl':
+                hdr = ''.join(t.text for t in sf.toks[it.first:it.body_lo]).strip()
+                hdr = ' '.join(hdr.split())
+                if ' for ' in hdr:
+                    keys.append(hdr)
+                else:
+                    for sub in scan_items(sf.toks, it.body_lo + 1, it.body_hi):
+                        if sub.kind == 'fn' and sub.active():
+                            keys.append(hdr + ' :: fn ' + sub.name)
+            for k in keys:
+                if pat and pat not in k:
+                    continue
+                e = gen.Entry()
+                e.file, e.locator = argv[1], k
+                try:
+                    L = repo.locate(e)[0]
+                except gen.GenError as ex:
+                    print('// SKIP', k, ex)
+                    continue
+                log = {}
+                print('//@@ item %s :: %s' % (argv[1], k))
+                print(gen.normalize_item(L.text, log))
+                print('//@@ end\n')
+    elif argv[0] == 'verify':
+        # dev loop: generate + run verus + compact failure list
+        from . import check
+        units = None
+        fn = None
+        i = 1
+        while i < len(argv):
+            if argv[i] == '-u':
+                units = None if argv[i + 1] == 'all' else set(argv[i + 1].split(','))
+                i += 2
+            elif argv[i] == '-f':
+                fn = argv[i + 1]
+                i += 2
+            else:
+                i += 1
+        text, line_map, em, entries = generate(units)
+        out = os.path.join(ROOT, 'build', 'gen.rs')
+        open(out, 'w').write(text)
+        extra = []
+        if fn:
+            extra = ['--verify-root', '--verify-function', fn] if '::' not in fn else ['--verify-module', fn.rsplit('::', 1)[0], '--verify-function', fn.rsplit('::', 1)[1]]
+        r = check.run_verus(out, rlimit=30, extra=extra)
+        j = r['json']
+        if j is None:
+            print(r['raw_err'][-6000:])
+            return
+        print(j['verification-results'], 'wall %.1fs' % r['wall'])
+        src_lines = text.split('\n')
+        for d in r['diags']:
+            if d.get('level') != 'error' or d['message'].startswith('aborting'):
+                continue
+            sp = [x for x in d.get('spans', [])]
+            prim = [x for x in sp if x.get('is_primary')] or sp
+            where = ''
+            meta = None
+            for x in prim + sp:
+                meta = check.locate(line_map, x['line_start'])
+                if meta:
+                    break
+            key = meta['key'] if meta else '?'
+            locs = '; '.join('%s:%d %s' % (x['file_name'].split('/')[-1], x['line_start'], (x.get('label') or '')) for x in sp)
+            snippet = ''
+            for x in prim:
+                if x['file_name'].endswith('gen.rs'):
+                    snippet = src_lines[x['line_start'] - 1].strip()[:160]
+            print('- [%s] %s\n      %s\n      > %s' % (key, d['message'][:200], locs[:300], snippet))
     elif argv[0] == 'gen':
         units = None
         out = os.path.join(ROOT, 'build', 'gen.rs')
